@@ -378,6 +378,7 @@ CHECKS["C19"] = {
         H("opentype/gtab/builder", _B, "VerifH_C19_templates", ["done"], quick={"timeout": 100}),
         H("opentype/gtab/builder", _B, "VerifH_C19_roundtrip", ["done"], quick={"params": {"fonts": 2, "maxgid": 3, "vrfields": 1}, "timeout": 280, "shards": 11},
           thorough={"params": {"fonts": 4, "maxgid": 7}, "timeout": 3000, "shards": 11}),
+        H("opentype/gtab/builder", _B, "VerifH_C19_multi", ["done"], quick={"timeout": 280, "shards": 6}),
         H("opentype/gtab/builder", _B, "VerifH_C19_nocmap", ["done"], quick={"timeout": 280, "shards": 12}),
         H("opentype/gtab/builder", _B, "VerifH_C19_sched", ["done"], quick={"params": {"preemptions": 2}, "timeout": 280, "shards": 3}, thorough={"params": {"preemptions": 4}, "timeout": 3000, "shards": 3}),
         H("opentype/gtab/builder", _B, "VerifH_C19_text", ["accepted", "rejected"], quick={"params": {"window": 1}, "timeout": 280, "shards": 12},
